@@ -332,8 +332,11 @@ def check(case, rec):
                 derived(r, f"result {where}")
                 # (swapRanks reports an estimated shape -- C14's subject; histories continue on results
                 # that still know their shape)
+                # (... and only where that shape is the one the history draws its coordinates from: a transform
+                # of a tensor WITHOUT declared shape may hand on the estimate as the declared shape of its result,
+                # and writing beyond a declared shape is the caller's error)
                 if int_coords(r) and all(isinstance(x, str) for x in r.getRankIds()) \
-                        and r.getShape(authoritative=True) is not None:
+                        and r.getShape(authoritative=True) == list(nshape):
                     retarget(m, r, nid, nshape)
                     if k.startswith("split"):
                         # inserting new coordinates into a split result would have to respect the partition
